@@ -76,6 +76,8 @@ def _items(av, icase):
             items.append(("k",) + CATS[a])
         else:
             raise Untranslatable(f"set member {op}")
+    # the order of the members of a set is irrelevant: normalise it, so that e.g. `[+-]` -> `[-+]` is no change
+    items.sort(key=lambda it: (it[0], [str(x) for x in it[1:]]) if it[0] == "k" else (it[0], list(it[1:])))
     return neg, items
 
 
@@ -108,7 +110,7 @@ def _one_char_set(body, icase):
 def _node(op, av, flags):
     icase = bool(flags & re.IGNORECASE)
     if op is sre_c.LITERAL:
-        return ("chrI", av) if (icase and _cased(av)) else ("chr", av)
+        return ("chrI", av) if icase else ("chr", av)
     if op is sre_c.NOT_LITERAL:
         if icase and _cased(av):
             raise Untranslatable("cased NOT_LITERAL under IGNORECASE")
